@@ -33,6 +33,12 @@ type wtWaiter struct {
 	result  chan string
 	cancel  context.CancelFunc
 	cancelled bool
+	// scheduler control: with hold set, the waiter's goroutine is parked just BEFORE it takes the lock of
+	// its next critical section (hook "before"), until release
+	resolved string // the version string the waiter was started with
+	hold   bool
+	atGate bool
+	gate   chan struct{}
 }
 
 type wtCase struct {
@@ -130,6 +136,12 @@ func (c *wtCase) settle() {
 				continue
 			default:
 			}
+			c.mu.Lock()
+			held := w.atGate
+			c.mu.Unlock()
+			if held {
+				continue
+			}
 			if gs == nil {
 				gs = allGoroutines()
 			}
@@ -140,6 +152,7 @@ func (c *wtCase) settle() {
 		}
 		if stable {
 			c.flush("")
+			c.missedWakeups()
 			return
 		}
 		if time.Now().After(deadline) {
@@ -157,11 +170,14 @@ func (c *wtCase) startWaiter(i int) {
 	if w.verOrd >= 1 && w.verOrd <= len(c.versions) {
 		ver = c.versions[w.verOrd-1]
 	}
+	w.resolved = ver
 	cx, cancel := context.WithCancel(context.Background())
 	w.cancel = cancel
 	ready := make(chan int64)
+	goAhead := make(chan struct{})
 	go func() {
 		ready <- goid()
+		<-goAhead
 		err := c.st.WaitForVersionChange(cx, w.key, ver)
 		switch {
 		case err == nil:
@@ -174,9 +190,70 @@ func (c *wtCase) startWaiter(i int) {
 			w.result <- "other:" + err.Error()
 		}
 	}()
-	w.gid = <-ready
+	g := <-ready
+	c.mu.Lock()
+	w.gid = g
 	w.started = true
+	c.mu.Unlock()
+	close(goAhead)
 	c.settle()
+}
+
+// missedWakeups is the property's own condition on the real store: once everything has settled, a waiter
+// still parked in its select awaits a version that is no longer the key's (the record was rewritten or
+// deleted) — the change was missed.  (A record that has merely EXPIRED wakes its waiters by their timer.)
+func (c *wtCase) missedWakeups() {
+	// a consistent snapshot: no critical section ran between the two reads of the section log, and the
+	// goroutine states were sampled in between
+	c.mu.Lock()
+	n0 := len(c.secs)
+	c.mu.Unlock()
+	vers := inmem.VerifVersions(c.st)
+	gs := allGoroutines()
+	c.mu.Lock()
+	n1 := len(c.secs)
+	c.mu.Unlock()
+	if n0 != n1 {
+		return
+	}
+	for _, w := range c.waiters {
+		if g := gs[w.gid]; !(g.state == "select" && strings.Contains(g.stack, "WaitForVersionChange")) {
+			continue
+		}
+		select {
+		case r := <-w.result:
+			w.result <- r
+			continue
+		default:
+		}
+		c.mu.Lock()
+		held := w.atGate
+		c.mu.Unlock()
+		if !w.started || w.done || held || w.resolved == "" {
+			continue
+		}
+		if cur, ok := vers[w.key]; !ok || cur != w.resolved {
+			c.ctx.R.Quiet("mon C07-no-missed-wakeup", fmt.Sprintf("waiter %d is parked awaiting a change of %s from version ordinal %d, but the record is %s", w.idx, w.key, w.verOrd, map[bool]string{true: "at another version", false: "gone"}[ok]))
+			c.failed = true
+		}
+	}
+}
+
+// release lets a held waiter take its lock (or just disarms a hold that never triggered)
+func (c *wtCase) release(i int) {
+	w := c.waiters[i]
+	c.mu.Lock()
+	at, gate := w.atGate, w.gate
+	w.hold, w.atGate = false, false
+	if at {
+		w.gate = make(chan struct{})
+	}
+	c.mu.Unlock()
+	if at {
+		c.nontriv = true
+		close(gate)
+		c.settle()
+	}
 }
 
 func (c *wtCase) parkedOn(key string) int {
@@ -193,11 +270,26 @@ func runWaitersCase(ctx *Ctx, specs [][2]interface{}, script []string) {
 	c := &wtCase{ctx: ctx, st: inmem.New(), expiry: map[string]time.Time{}, mainGid: goid()}
 	var hdr []string
 	for i, s := range specs {
-		w := &wtWaiter{idx: i, key: s[0].(string), verOrd: s[1].(int), result: make(chan string, 1)}
+		w := &wtWaiter{idx: i, key: s[0].(string), verOrd: s[1].(int), result: make(chan string, 1), gate: make(chan struct{})}
 		c.waiters = append(c.waiters, w)
 		hdr = append(hdr, fmt.Sprintf("%s:%d", w.key, w.verOrd))
 	}
 	inmem.VerifSectionHook = func(kind, site string, obj any) {
+		if kind == "before" {
+			g := goid()
+			var gate chan struct{}
+			c.mu.Lock()
+			for _, w := range c.waiters {
+				if w.started && w.gid == g && w.hold {
+					w.hold, w.atGate, gate = false, true, w.gate
+				}
+			}
+			c.mu.Unlock()
+			if gate != nil {
+				<-gate
+			}
+			return
+		}
 		if kind != "leave" {
 			return
 		}
@@ -223,13 +315,27 @@ func runWaitersCase(ctx *Ctx, specs [][2]interface{}, script []string) {
 			var i int
 			fmt.Sscan(f[1], &i)
 			c.startWaiter(i)
+		case "hold":
+			// park waiter i just before the lock of its NEXT critical section (whenever that comes)
+			var i int
+			fmt.Sscan(f[1], &i)
+			c.mu.Lock()
+			if w := c.waiters[i]; w.started && !w.done && !w.atGate {
+				w.hold = true
+			}
+			c.mu.Unlock()
+		case "release":
+			var i int
+			fmt.Sscan(f[1], &i)
+			c.release(i)
 		case "cancel":
 			var i int
 			fmt.Sscan(f[1], &i)
 			w := c.waiters[i]
-			if !w.started || w.done {
+			if !w.started || w.done || w.cancelled {
 				continue
 			}
+			w.cancelled = true
 			if c.parkedOn(w.key) > 1 {
 				c.nontriv = true
 			}
@@ -317,7 +423,15 @@ func runWaitersCase(ctx *Ctx, specs [][2]interface{}, script []string) {
 		}
 	}
 	// cancel whoever is still waiting; then no bookkeeping may be left (C07)
+	for i := range c.waiters {
+		if !c.failed {
+			c.release(i)
+		}
+	}
 	for _, w := range c.waiters {
+		if w.started && !w.done && !c.failed && w.cancelled {
+			c.settle()
+		}
 		if w.started && !w.done && !c.failed {
 			ctx.R.Op(fmt.Sprintf("cancel %d", w.idx), "ok")
 			w.cancel()
@@ -368,13 +482,15 @@ func runWaiters(ctx *Ctx) {
 			if r.Chance(2, 3) {
 				k = keys[0]
 			}
-			switch r.Intn(6) {
+			switch r.Intn(7) {
 			case 0, 1, 2, 3:
 				ver = keyLast[k] // current (0 if the key was never written)
 			case 4:
 				if writes > 0 {
 					ver = r.Range(1, writes) // possibly stale / other key's
 				}
+			case 5:
+				ver = writes + r.Range(1, 2) // the version a LATER write will produce (current by the time the waiter starts, if it starts after it)
 			}
 			specs = append(specs, [2]interface{}{k, ver})
 		}
@@ -396,8 +512,17 @@ func runWaiters(ctx *Ctx) {
 					started[w] = true
 					script = append(script, fmt.Sprintf("start %d", w))
 				}
-			case x < 42:
+			case x < 38:
 				script = append(script, fmt.Sprintf("cancel %d", r.Intn(nw)))
+			case x < 44:
+				// a waiter's next critical section is delayed past whatever comes next
+				w := r.Intn(nw)
+				script = append(script, fmt.Sprintf("hold %d", w))
+				if r.Chance(1, 2) {
+					script = append(script, fmt.Sprintf("cancel %d", w))
+				}
+			case x < 48:
+				script = append(script, fmt.Sprintf("release %d", r.Intn(nw)))
 			case x < 55:
 				script = append(script, "put "+k)
 			case x < 62:
@@ -417,6 +542,27 @@ func runWaiters(ctx *Ctx) {
 		for w := 0; w < nw; w++ {
 			if !started[w] && r.Chance(1, 2) {
 				script = append(script, fmt.Sprintf("start %d", w))
+			}
+		}
+		if nw >= 2 && r.Chance(1, 5) {
+			// directed: a leaving waiter (cancelled / expiry timer) reaches its critical section only after a
+			// write replaced the waiter record and another waiter registered on the new one
+			specs = [][2]interface{}{{"a", 1}, {"a", 2}}
+			if nw == 3 {
+				specs = append(specs, [2]interface{}{"a", 2})
+			}
+			first := "put a"
+			leave := "cancel 0"
+			if r.Chance(1, 3) {
+				first, leave = "putx a", "expire a"
+			}
+			script = []string{first, "start 0", "hold 0", leave, "put a", "start 1"}
+			if nw == 3 && r.Chance(1, 2) {
+				script = append(script, "start 2")
+			}
+			script = append(script, "release 0")
+			for i := 0; i < r.Range(1, 3); i++ {
+				script = append(script, []string{"put a", "delete a", "cancel 1", "cas a current"}[r.Intn(4)])
 			}
 		}
 		runWaitersCase(ctx, specs, script)
